@@ -802,6 +802,122 @@ def ring_decide(d, extra_relations=(), boxes=None, hyps=(), seed=0, n=40):
             return False, {s.name: float(x) for s, x in env.items()}
         if n <= 0:
             break
+    # the expression may have kinks (Min / Max / if-then-else from clip, maximum, where ...): uniform sampling rarely lands on the rare
+    # side of a switch, so look for the switch surfaces deliberately and evaluate just beyond them
+    w = _kink_search(d, syms, boxes, hyps, rnd)
+    if w is not None:
+        return False, w
+    return None
+
+
+def _switches(d):
+    from . import sym as _sym
+
+    out = []
+    for a in d.atoms(sp.Max, sp.Min):
+        args = list(a.args)
+        for i in range(len(args)):
+            for j in range(i + 1, len(args)):
+                out.append(args[i] - args[j])
+    for a in d.atoms(_sym.Ite):
+        c = a.args[0]
+        for r in c.atoms(sp.core.relational.Relational):
+            out.append(r.lhs - r.rhs)
+    for a in d.atoms(sp.Piecewise):
+        for _v, c in a.args:
+            if isinstance(c, sp.Basic):
+                for r in c.atoms(sp.core.relational.Relational):
+                    out.append(r.lhs - r.rhs)
+    for a in d.atoms(sp.Abs):
+        out.append(a.args[0])
+    uniq = []
+    for g in out:
+        if g.free_symbols and g not in uniq:
+            uniq.append(g)
+    return uniq[:8]
+
+
+def _kink_search(d, syms, boxes, hyps, rnd, bases=10, grid=40):
+    sw = _switches(d)
+    if not sw:
+        return None
+
+    def ok(env):
+        try:
+            return (not hyps) or all(neval(h, env) for h in hyps)
+        except (ValueError, ZeroDivisionError, KeyError):
+            return False
+
+    def differs(env):
+        try:
+            v = neval(d, env)
+            scale = 1 + sum(abs(neval(a, env)) for a in (d.args if isinstance(d, sp.Add) else [d]))
+        except (ValueError, ZeroDivisionError, KeyError):
+            return False
+        return abs(v) > mpmath.mpf(10) ** (-20) * scale
+
+    for _b in range(bases):
+        env = None
+        for _t in range(60):
+            e = {s_: (lambda lo_hi: lo_hi[0] + (lo_hi[1] - lo_hi[0]) * rnd.random())(boxes.get(s_, boxes.get(s_.name, (0.1, 2.0)))) for s_ in syms}
+            if ok(e):
+                env = e
+                break
+        if env is None:
+            continue
+        for g in sw:
+            for s_ in sorted(g.free_symbols & set(syms), key=lambda q: q.name):
+                lo, hi = boxes.get(s_, boxes.get(s_.name, (0.1, 2.0)))
+                prev = None
+                last_valid = None  # (x, valid?) of the previous grid point: a switch may hide in the thin strip along the edge of the hypotheses
+                for k in range(grid + 1):
+                    x = lo + (hi - lo) * k / grid
+                    e = dict(env)
+                    e[s_] = x
+                    valid = ok(e)
+                    if last_valid is not None and valid != last_valid[1]:
+                        a_, b_ = (last_valid[0], x) if last_valid[1] else (x, last_valid[0])  # a_ valid, b_ invalid
+                        for _i in range(60):
+                            mid = (a_ + b_) / 2
+                            e3 = dict(env)
+                            e3[s_] = mid
+                            if ok(e3):
+                                a_ = mid
+                            else:
+                                b_ = mid
+                        for frac in (1e-9, 1e-7, 1e-5, 1e-4, 1e-3):
+                            e2 = dict(env)
+                            e2[s_] = a_ + (last_valid[0] - b_ if last_valid[1] else x - b_) * frac
+                            if ok(e2) and differs(e2):
+                                return {q.name: float(v) for q, v in e2.items()}
+                    last_valid = (x, valid)
+                    if not valid:
+                        prev = None
+                        continue
+                    try:
+                        sg = neval(g, e) > 0
+                    except (ValueError, ZeroDivisionError, KeyError):
+                        prev = None
+                        continue
+                    if prev is not None and sg != prev[1]:
+                        # bisect the switch, then step to either side of it
+                        a_, b_ = prev[0], x
+                        for _i in range(50):
+                            mid = (a_ + b_) / 2
+                            e[s_] = mid
+                            try:
+                                if (neval(g, e) > 0) == prev[1]:
+                                    a_ = mid
+                                else:
+                                    b_ = mid
+                            except (ValueError, ZeroDivisionError, KeyError):
+                                break
+                        for x2 in (a_ - (b_ - a_) - abs(a_) * 1e-9, b_ + (b_ - a_) + abs(b_) * 1e-9, a_ - (hi - lo) * 1e-4, b_ + (hi - lo) * 1e-4):
+                            e2 = dict(env)
+                            e2[s_] = x2
+                            if ok(e2) and differs(e2):
+                                return {q.name: float(v) for q, v in e2.items()}
+                    prev = (x, sg)
     return None
 
 
